@@ -320,7 +320,7 @@ impl Action for AbsAction {
     fn execute(&self, arguments: &[Data], _global: &GlobalData) -> Result<Data, String> {
         if arguments.len() == 1 {
             match &arguments[0] {
-                Data::Integer(value) => Ok(Data::Integer(value.abs())),
+                Data::Integer(value) => Ok(Data::Integer(value.saturating_abs())),
                 Data::Double(value) => Ok(Data::Double(value.abs())),
                 _ => Err("Wrong argument type for 'abs'.".to_string()),
             }
